@@ -115,7 +115,11 @@ func (c *caseGen) step() {
 			p = Pick(r, cand)
 		}
 		na := 10 + r.Intn(6)
-		switch r.Intn(6) {
+		switch r.Intn(8) {
+		case 6: // to a link-local IPv6 address with a zone
+			na = 500 + c.addrOf[p.sess]%100
+		case 7: // the same link-local address on another interface (from 500+j: only the zone changes)
+			na = 600 + c.addrOf[p.sess]%100
 		case 0: // only the port changes
 			na = 100 + c.addrOf[p.sess]%100
 		case 1: // only the IP changes
